@@ -80,7 +80,7 @@ theorem trapNS_ok : NumOK trapNS := by
   refine ⟨fun opcode k h => by simp [trapNS, h], fun opcode k args v h hs => by simp [trapNS] at hs⟩
 
 theorem trapNS_mem : MemOK trapNS := by
-  refine ⟨?_, ?_, ?_, ?_, ?_, ?_, ?_⟩ <;> intros <;> simp_all [trapNS, vtOf]
+  refine ⟨?_, ?_, ?_, ?_, ?_, ?_, ?_, ?_, ?_⟩ <;> intros <;> simp_all [trapNS, vtOf]
 
 /-- in a module without functions to call, the call hypotheses hold trivially -/
 theorem trapNS_calls (lt : List VT) : CallOK trapNS { localTypes := lt } := by
